@@ -10,7 +10,7 @@ from ..core import FUNC, call_attr, calls_in, chain, dotted, kwarg, text, walk_l
 EXPLANATION = [
     'C03.ll-coverage: every link-layer control PDU class the virtual controller constructs in a send_ll_control_pdu call has a matching `case` in on_ll_control_pdu (otherwise the HCI procedure that sent it is accepted as pending and never concluded, in one of the two roles).',
     'C03.host-complete: a Command Complete that only carries credits (opcode 0) never concludes the pending command: on_command_processed / set_result are reached only on paths where `event.command_opcode == 0` is excluded (symbolic path facts); the pending future is resolved once, under `if self.pending_response`.',
-    'C03.lmp-answers: each classic LMP request the virtual controller accepts is answered by exactly one response naming that request; the responder side answers the request it received.',
+    'C03.lmp-answers: each classic LMP request the virtual controller accepts is answered by exactly one response naming that request; the responder side answers the request it received, and in every function unit of a responder (method body or nested callback) no path reaches the local conclusion of the procedure (or the normal exit) without the LMP answer having been sent or handed to a nested callback that sends it on all its paths.',
     'C03.host-send: typestate walk of Host._send_command over all normal and '
     'exceptional exits (acquire -> pending slots set -> send; every exit clears '
     'both slots and reaches the release), who-may-send census of '
@@ -751,6 +751,46 @@ def lmp_answers(ctx):
             answered.setdefault(o, []).append(name)
         R.check(len(ops) == 1, rule, f'{CTRL}.{name} | answers one request', f'all {sum(map(len, ops.values()))} LMP answer(s) name {sorted(ops)[0]}',
                 f'responder answers different requests on different paths: {sorted(ops)} (the peer waiting for one of them is never released)', p.loc(m))
+    # every outcome answered: in each function unit of a responder (the method body, each nested callback on its own),
+    # no path reaches the local conclusion of the procedure (on_classic_*_complete), or the normal exit when the unit
+    # has no such conclusion, without the LMP answer having been sent (or handed to a nested callback that sends it)
+    class AnsDomain(paths.Domain):
+        def __init__(self, delegates, has_conclusion):
+            self.delegates, self.has_conclusion, self.bad = delegates, has_conclusion, []
+
+        def event(self, node, v):
+            if isinstance(node, ast.Call):
+                if call_attr(node) in ANSWERS and node.args:
+                    return (True,)
+                if call_attr(node) == 'add_done_callback' and node.args and text(node.args[0]) in self.delegates:
+                    return (True,)
+                d = dotted(node.func) or ''
+                if d.startswith('self.on_classic_') and d.endswith('_complete') and not v:
+                    self.bad.append(node.lineno)
+            return (v,)
+
+        def assume(self, atom, truth, v):
+            return (v,)
+    n_units = 0
+    for name, m in sorted(ctl.methods.items()):
+        units = [m] + [x for x in ast.walk(m) if isinstance(x, FUNC) and x is not m]
+        answering = [u for u in units if any(isinstance(c, ast.Call) and call_attr(c) in ANSWERS and c.args for c in walk_local(u))]
+        if not answering or name == 'on_lmp_packet':
+            continue
+        nested_answering = {u.name for u in answering if u is not m}
+        for u in answering:
+            concl = [c for c in walk_local(u) if isinstance(c, ast.Call) and (dotted(c.func) or '').startswith('self.on_classic_') and (dotted(c.func) or '').endswith('_complete')]
+            dom = AnsDomain(nested_answering, bool(concl))
+            res = paths.run(u, dom, False)
+            silent_exit = [k for k, st in res.items() if not k.startswith('raise') for v in st if not v]
+            n_units += 1
+            key = f'{CTRL}.{name}' + ('' if u is m else f'.{u.name}') + ' | every outcome answered'
+            if concl:
+                R.check(not dom.bad, rule, key, f'every path to the {len(concl)} local conclusion(s) has sent the LMP answer first',
+                        f'a path concludes the procedure locally (line {sorted(set(dom.bad))[:3]}) without answering the peer: the initiator\'s pending command is never completed', p.loc(u))
+            else:
+                R.check(not silent_exit, rule, key, 'every normal path sends the LMP answer', 'a normal path returns without answering the peer\'s request: its continuation never runs', p.loc(u))
+    R.check(n_units >= 4, rule, f'{CTRL} | answering units', f'{n_units} answering function units analysed', f'only {n_units} answering units found')
     # requests with a continuation
     awaited = {}
     for name, m in ctl.methods.items():
